@@ -30,8 +30,8 @@ RULE = (
   "one island found in world 0 and the expected labelling (spec union-find) has >=1 edge; distinct = hash of spec"
 )
 BOUNDS = {
-  "quick": "T<=3 trees (3+27+729 graphs) + generic family on T=3 (all kinds x subsets x 4 extra-edge choices)",
-  "thorough": "T<=4 trees (3+27+729+59049 graphs) + generic family on T=3 and T=4",
+  "quick": "T<=3 trees (3+27+729 graphs) + all 1024 graphs on 5 trees + 729 double-hub graphs on 8 trees + generic family on T=3 (all kinds x subsets x 4 extra-edge choices)",
+  "thorough": "T<=4 trees (3+27+729+59049 graphs) + all graphs on 5 and 6 trees (1024+32768) + 8192 double-hub graphs on 8 trees + generic family on T=3 and T=4",
 }
 ASSUMPTIONS = [
   "island()/compute_island_mapping() are called directly after fwd_position (the library itself only calls them when sleep is enabled)",
@@ -76,6 +76,29 @@ def scenarios(tier, seed):
       for sa in itertools.product(range(3), repeat=T):
         out.append(dict(fam="graph", T=T, pairs=list(pa), selfs=list(sa), variant=variant, idx=idx))
         idx += 1
+  # dense graphs: every labelled graph on 5 (thorough: 6) trees, and every "double hub" graph on 8 trees (two hub trees, every other
+  # tree attached to hub A, hub B or both [thorough: or neither], hubs linked [thorough: or not]); edge kind by parity
+  def dense(T, edge_set):
+    prs = _pairs(T)
+    codes = [0] * len(prs)
+    for a, b in edge_set:
+      codes[prs.index((min(a, b), max(a, b)))] = 2 if ((a + b) % 2 == 1 and abs(a - b) <= 3) else 1
+    return codes
+
+  for T in (5,) if tier == "quick" else (5, 6):
+    prs = _pairs(T)
+    for bits in range(1 << len(prs)):
+      out.append(dict(fam="graph", T=T, pairs=dense(T, [p for i, p in enumerate(prs) if bits >> i & 1]), selfs=[0] * T, variant=variant, idx=idx))
+      idx += 1
+  hubs, leaves = (0, 5), (1, 2, 3, 4, 6, 7)
+  for hub_edge in (1,) if tier == "quick" else (1, 0):
+    for att in itertools.product((1, 2, 3) if tier == "quick" else (0, 1, 2, 3), repeat=len(leaves)):
+      es = [hubs] if hub_edge else []
+      for leaf, a in zip(leaves, att):
+        es += [(hubs[0], leaf)] if a & 1 else []
+        es += [(hubs[1], leaf)] if a & 2 else []
+      out.append(dict(fam="graph", T=8, pairs=dense(8, es), selfs=[0] * 8, variant=variant, idx=idx))
+      idx += 1
   for T in (3,) if tier == "quick" else (3, 4):
     subsets = [list(s) for k in range(1, T + 1) for s in itertools.combinations(range(T), k)]
     extras = [None] + [list(p) for p in _pairs(T)]
